@@ -1,49 +1,15 @@
 """C05 - signature acceptance binds each AGG_SIG condition to its domain-separated text."""
-import json
-import os
 from checks.common import *
-
-
-def sig(e):
-    return {"event": "sig", "kind": e.get("kind")}
+from checks import sig_pipeline
 
 
 def run(tier):
     chk = vlib.Check("C05", tier)
-    wd = vlib.workdir("C05")
-    cases, meta = gen_cases("MC_AggSig.tla", "MC_AggSig.cfg", workers=8, timeout=3600)
-    chk.states += meta["distinct"]
-    chk.transitions += meta["generated"]
-    chk.extra["model"] = meta
-    sel = os.path.join(wd, "cases-sel.ndjson")
-    step = 14 if tier == "quick" else 2
-    with open(sel, "w") as f:
-        for i, line in enumerate(open(cases)):
-            if (i + chk.seed) % step == 0:
-                f.write(line)
-    t1 = os.path.join(wd, "replay.ndjson")
-    vlib.harness(["aggsig", "--cases", sel, "--seed", chk.seed, "--out", t1], timeout=7200)
-    t2 = os.path.join(wd, "random.ndjson")
-    vlib.harness(["aggsig", "--seed", chk.seed, "--out", t2, "--n", 40 if tier == "quick" else 1500], timeout=7200)
-    paths = shard_file(t1, 6 if tier == "quick" else 16, wd, "replay") + shard_file(t2, 2 if tier == "quick" else 8, wd, "random")
-    validate_parallel("Trace_AggSig.tla", paths, chk, "sig", sig_fn=sig, jobs=8, classes=["C05"], timeout=7200)
-    acc = rej = 0
-    kinds = {}
-    for p in paths:
-        for e in vlib.read_ndjson(p):
-            ok = e["res"]["ps"] is True
-            acc += ok
-            rej += not ok
-            kinds[e["kind"]] = kinds.get(e["kind"], 0) + 1
-            if e["signed"]:
-                chk.nontrivial_add(json.dumps([e["spends"], e["signed"]])[:6000])
-            if ok and e["signed"]:
-                chk.sample({"kind": e["kind"], "signed": e["signed"][:2], "res": e["res"]}, limit=2)
-            elif not ok and e["kind"] == "flip":
-                chk.sample({"kind": e["kind"], "res": e["res"]}, limit=4)
-    if acc < 30 or rej < 100:
-        raise ToolError("C05 vacuity guard: accepted=%d rejected=%d" % (acc, rej))
-    chk.extra.update({"accepted_signatures": acc, "rejected_signatures": rej, "kinds": kinds, "exhaustive": False})
+    res = sig_pipeline.run(tier, chk.seed)
+    sig_pipeline.apply(chk, res, ["C05"])
+    if res["accepted"] < 30 or res["rejected"] < 100:
+        raise ToolError("C05 vacuity guard: accepted=%d rejected=%d" % (res["accepted"], res["rejected"]))
+    chk.extra["exhaustive"] = False
     chk.rule = ("M: MC_AggSig - all pairs of the 8 AGG_SIG opcodes x amounts of every encoding-length class x messages: required text per opcode (DomainSeparated), every "
                 "single-point tampering changes the bag, banned UNSAFE suffixes / invalid keys invalidate the bundle; every case is replayed: the harness signs the spec's "
                 "required list and each tampered list with real secret keys; random bundles are signed with the pairs the code itself reports and tampered; TLC "
